@@ -8,7 +8,7 @@ extern int xrow, xoff, xtop;
 #define ESC "\x1b"
 static const char *buftexts[] = {
 	"abc def\n  x_1 (y)\n\nlast.\n",
-	"a\tb\n\t\xc3\xa9\xe4\xb8\x80z\n",
+	"a\tb\n\t\xc3\xa9\xe4\xb8\x80z\na\xc3\xa8" "b\xc3\xa9" "c\xc3\xa8\n",
 	"e\xcc\x81x yz\n\n{a[b]}\n",
 	"",
 	"x\n",
@@ -77,7 +77,7 @@ static void build_ops(void)
 	static const struct { const char *k; int key; unsigned arg; } mots[] = {
 		{"w", 'w', 0}, {"b", 'b', 0}, {"e", 'e', 0}, {"W", 'W', 0}, {"B", 'B', 0}, {"E", 'E', 0},
 		{"h", 'h', 0}, {"l", 'l', 0}, {" ", ' ', 0}, {"0", '0', 0}, {"^", '^', 0}, {"$", '$', 0}, {"3|", '|', 0},
-		{"fa", 'f', 'a'}, {"Fa", 'F', 'a'}, {"tb", 't', 'b'}, {"Tb", 'T', 'b'}, {"f(", 'f', '('}, {"fq", 'f', 'q'},
+		{"fa", 'f', 'a'}, {"Fa", 'F', 'a'}, {"f\xc3\xa9", 'f', 0xe9}, {"T\xc3\xa9", 'T', 0xe9}, {"tb", 't', 'b'}, {"Tb", 'T', 'b'}, {"f(", 'f', '('}, {"fq", 'f', 'q'},
 		{"j", 'j', 0}, {"k", 'k', 0}, {"G", 'G', 0}, {"1G", 'G', 0}, {"+", '+', 0}, {"-", '-', 0}, {"_", '_', 0},
 		{"%", '%', 0}, {"}", '}', 0}, {"{", '{', 0}, {"H", 'H', 0}, {"L", 'L', 0},
 	};
